@@ -515,14 +515,41 @@ class ThreadsSim(Simulator):
         return gen_plan(seed, tier, idx)
 
     def isolated(self, query):
+        """Answer of the isolated oracle for `query`: evaluated by the library on fresh objects in a freshly
+        forked child of this (history-free) zygote. Memoised in the worker and, within one check invocation,
+        shared between workers through a scratch directory: an isolated answer is history-free by definition,
+        so sharing it cannot change a verdict, only save the fork."""
         key = core.canon_json(query)
-        if key not in _ISO_MEMO:
-            st, res = core.fork_call(libapi.eval_isolated, (query,), timeout=120)
-            if st != "ok":
-                raise core.HarnessError("isolated oracle failed: %s %s" % (st, res))
-            _ISO_MEMO[key] = (res, True)
-            return res, False
-        return _ISO_MEMO[key][0], True
+        if key in _ISO_MEMO:
+            return _ISO_MEMO[key], True
+        cdir = os.environ.get("VERIF_ISO_CACHE")
+        path = None
+        if cdir:
+            import hashlib
+            import json
+            h = hashlib.sha256(key.encode()).hexdigest()
+            path = os.path.join(cdir, h[:2], h + ".json")
+            try:
+                with open(path) as f:
+                    res = json.load(f)["a"]
+                _ISO_MEMO[key] = res
+                return res, True
+            except (OSError, ValueError):
+                pass
+        st, res = core.fork_call(libapi.eval_isolated, (query,), timeout=120)
+        if st != "ok":
+            raise core.HarnessError("isolated oracle failed: %s %s" % (st, res))
+        _ISO_MEMO[key] = res
+        if path:
+            try:
+                os.makedirs(os.path.dirname(path), exist_ok=True)
+                tmp = "%s.%d.tmp" % (path, os.getpid())
+                with open(tmp, "w") as f:
+                    f.write(core.canon_json({"a": res}))
+                os.replace(tmp, path)
+            except OSError:
+                pass
+        return res, False
 
     def run(self, prop, plan):
         st, out = core.fork_call(_run_child, (plan,), timeout=400)
